@@ -278,7 +278,20 @@ func (u *UserHash) SetAdmin(adminState bool) error {
 		oldname += adminExt
 		newname += userExt
 	}
-	return os.Rename(oldname, newname)
+	if err := os.Rename(oldname, newname); err != nil {
+		return err
+	}
+	return syncDir(u.store.BaseDir)
+}
+
+// syncDir flushes the entries of the directory path to disk
+func syncDir(path string) error {
+	dir, err := os.Open(path)
+	if err != nil {
+		return err
+	}
+	defer dir.Close() //nolint:errcheck
+	return dir.Sync()
 }
 
 // Remove deletes hash file.
@@ -289,6 +302,7 @@ func (u *UserHash) Remove() {
 	filename := filepath.Join(u.store.BaseDir, u.user)
 	os.Remove(filename + adminExt) //nolint:errcheck
 	os.Remove(filename + userExt)  //nolint:errcheck
+	syncDir(u.store.BaseDir)       //nolint:errcheck
 }
 
 // Exists checks if user exists. It also returns whether user is an admin. This returns true even if
